@@ -247,8 +247,14 @@ class HttpWorld:
         return px, close, []
 
 
-def run_in_thread(fn, timeout: float):
-    """Run fn() with a watchdog.  Returns (finished, result | exception)."""
+def run_in_thread(fn, timeout: float, inline: bool = False):
+    """Run fn() with a watchdog.  Returns (finished, result | exception).
+    inline: run in the calling thread (in-process HTTP never blocks on a peer, so it needs no watchdog)."""
+    if inline:
+        try:
+            return True, ("ok", fn())
+        except BaseException as e:  # noqa: BLE001
+            return True, ("exc", e)
     box: list = []
 
     def body():
